@@ -35,7 +35,7 @@ func init() {
 			"through CollationID.WriteWeightString into the digest it returns, and HashOfSimple returns CollationID.HashToUint for text types. " +
 			"(H4) numeric text is canonicalised only behind the decimal point: every call of the hash package that strips trailing '0' characters from a string is guarded by a test that the string contains '.', and no stripped cutset holds both '0' and '.' - otherwise 10, 100 and 1000 (or 10.0 and 1) get one key, and every consumer that decides equality from the key alone (hash IN, DISTINCT, grouping) identifies different numbers.",
 		NotCovered: "numeric representation equality (1 vs 1.0), hash collisions, schemas that are non-nil but carry the wrong types, hashing operators that do not go through sql/hash at all, the weight tables themselves (C29)",
-		Technique:  "SSA dataflow: constant-nil operand of every resolved call site + callee/argument links inside the hashing kernel",
+		Technique:  "SSA dataflow: constant-nil operand of every resolved call site + callee/argument links inside the hashing kernel; AST guard analysis of the zero-stripping calls of the hash package",
 		Run: func(c *Ctx) {
 			runC07(c, c07Config{HashRel: "sql/hash", HashOf: "HashOf", Simple: "HashOfSimple", SqlRel: "sql", CollType: "CollationID", Weight: "WriteWeightString", HashTo: "HashToUint", Floors: [2]int{18, 2}})
 			c.Rule("C07-H4", "numeric text is canonicalised only behind the decimal point: every call in the hash package that strips trailing '0' characters from a string is guarded by a test that the string contains '.'", 1)
